@@ -22,6 +22,12 @@ CONSTANTS MaxExports
 
 Modes == {"standard", "web"}
 Sizes == {"small", "large", "edge"}    \* edge: exactly at the threshold, either treatment is allowed
+\* where the (only) big parameter lives: a top-level initializer, or an initializer of a Loop body graph
+\* (onnx.save_model spills both; the cleanup after a standard save must not confuse "no top-level
+\* external tensor" with "no external data")
+Locs == {"top", "body"}
+\* how the caller spells the mode: the API normalises case and surrounding blanks ("Web", " WEB ")
+Spells == {"canonical", "mixed_case"}
 
 VARIABLES file, sidecar, n, hist
 vars == <<file, sidecar, n, hist>>
@@ -29,10 +35,10 @@ vars == <<file, sidecar, n, hist>>
 NoFile == [model |-> 0, ext |-> FALSE]
 Init == file = NoFile /\ sidecar = [exists |-> FALSE, model |-> 0] /\ n = 0 /\ hist = <<>>
 
-Export(mode, size) ==
+Export(mode, size, loc, spell) ==
     /\ n < MaxExports
     /\ n' = n + 1
-    /\ hist' = Append(hist, <<mode, size>>)
+    /\ hist' = Append(hist, <<mode, size, loc, spell>>)
     /\ LET id == n + 1 IN
        CASE mode = "web" ->
               /\ file' = [model |-> id, ext |-> FALSE]
@@ -49,7 +55,10 @@ Export(mode, size) ==
               /\ file' = [model |-> id, ext |-> FALSE]
               /\ sidecar' = sidecar            \* a non-empty stale sidecar may stay on disk
 
-Next == \E m \in Modes, s \in Sizes : Export(m, s)
+\* location and spelling do not change what must be on disk afterwards
+Next == \E m \in Modes, s \in Sizes, l \in Locs, sp \in Spells :
+           /\ (l = "body" => s = "large") /\ (sp = "mixed_case" => m = "web" \/ s = "small")
+           /\ Export(m, s, l, sp)
 Spec == Init /\ [][Next]_vars
 
 \* what a loader sees: the graph from the file and, when referenced, parameter bytes of the sidecar
